@@ -10,10 +10,15 @@ Three ingredients (see tools/README.md):
                   the real router; (c) _create_dag against the Lean edge model;
               (d) the proved order checker `pickCheck` validates every real block
                   decomposition and every real execution order;
+              (e) the Lean transliteration of blocks.py (QV/Model/Blocks.lean, proved to be a
+                  commuting reordering for all circuits) is compared block by block, gate object
+                  by gate object, with the real `block_decomposition(fuse=True/False)` and its
+                  helper functions (exhaustive small circuits + seeded random);
   * search    the property itself on the real routers: connectivity of every two-qubit
               gate, exact operator identity  routed = P·input  on integer data, layout is a
               bijection, wire names / circuit kwargs kept, inputs not mutated, trailing
-              measurements re-attached on the right qubits with their registers, samples.
+              measurements re-attached on the right qubits with their registers, samples;
+              one router object reused after `router.connectivity` was reassigned.
 """
 from __future__ import annotations
 
@@ -1328,13 +1333,14 @@ def blocks_model_suite(ctx, st):
                         f"c = build_circuit({n}, list(range({n})), {codes!r})\n"
                         f"blocks = block_decomposition(c, fuse={fuse})\nassert blocks_ok(c, blocks)\n")
                 st.note("blocksprop", f"block_decomposition(fuse={fuse}) of {codes}")
-                if ("blocks:order", fuse) not in st.reported:
-                    st.reported.add(("blocks:order", fuse))
-                    ctx.fail("blocks:order", f"block_decomposition(fuse={fuse}) of {codes}: flatten(blocks) is not the input up to "
+                if "blocks:order:small" not in st.reported:
+                    st.reported.add("blocks:order:small")
+                    ctx.fail("blocks:order:small", f"block_decomposition(fuse={fuse}) of {codes}: flatten(blocks) is not the input up to "
                              "commuting gates on different qubits, or a block is not inside two distinct qubits", code,
                              expected="per-qubit gate sequences unchanged",
                              observed=[[list(b.qubits), [g.name for g in b.gates]] for b in blocks][:8],
-                             broken=["C09_search_blocks_exhaustive"])
+                             broken=["C09_search_blocks_exhaustive", "C09_corr_blocks_model", "C09_corr_blocks_helpers",
+                                     "C09_corr_blocks_model_accepted"])
 
     # exhaustive: every circuit of X / CNOT placements (gate objects differ by identity only)
     def kinds(n):
@@ -1476,6 +1482,8 @@ def run(ctx):
         broken = ["C09_search_property"]
         if case.get("_guard"):
             broken.append("C09_corr_guards")
+        if any(k == "order" for k, _ in bad):
+            broken.append("C09_corr_order")
         if case.get("_corr"):
             broken.append("C09_corr_replay" if case["router"] != "StarConnectivityRouter" else "C09_corr_star")
         fail_case(ctx, case, calls, bad, broken)
@@ -1492,6 +1500,8 @@ def run(ctx):
     ctx.ob("C09_search_blocks_exhaustive", st.bad["blocksprop"] == 0, "search", st.detail.get("blocksprop", ""))
     ctx.sample({"suite": "action replay", "meaning": "every CircuitMap.update/undo/execute_block call of a real ShortestPaths/Sabre run is replayed by QV.Router.step; p2l, l2p, number of routed gates and the last routed gate are compared after every action, the whole routed gate list and the layout at the end; guard bits and pickCheck come from the Lean side"})
     ctx.sample({"suite": "property search", "meaning": "connectivity of every 2-qubit gate, exact routed == P.U on Gaussian-integer operators (measurements as a fixed non-commuting marker), layout bijection, wire names, trailing measurements with registers, input not mutated, router object reused"})
+    ctx.sample({"suite": "blocks model", "meaning": "QV.Blocks.blockDecomposition (transliteration of blocks.py with object identities) against the real block_decomposition for fuse=True/False: sorted qubits of every block and the gate objects in it (position in the queue + class/qubits), all X/CNOT circuits on 2 qubits up to 5 gates and 3 qubits up to 3 gates (thorough: 3 qubits up to 4, 4 qubits up to 3), seeded random circuits up to 7 qubits / 30 gates with measurements, refusals (one qubit, three-qubit gate); _find_previous_gates / _find_successive_gates / _gates_on_qubit one by one"})
+    ctx.sample({"suite": "reassigned connectivity", "meaning": "one router object, `router.connectivity = G2` between calls (also G1->G2->G1 and construction with None): every call checked against the graph current at that call; stars with every ordered pair of different centres, paths/rings/stars/trees for ShortestPaths and Sabre"})
     ctx.trusted.append("networkx shortest paths / transitive reduction / topological generations (their outputs are validated per run: guards, order check, DAG closure)")
     ctx.trusted.append("measurements enter the operator identity as a fixed non-commuting 2x2 marker on each measured qubit; register names are compared for trailing measurements only")
     ctx.notes.append("all connected graphs on 2-5 nodes (30) x {ShortestPaths, Sabre} with identity / permuted / string labels, paths-rings-stars-grids-trees up to 8 nodes, random circuits <= 25 gates (integer Unitary, named, controlled_by, parametrised), trailing and mid-circuit measurements, Sabre options incl. swap_threshold small enough to force undo + shortest-path fallback, StarConnectivityRouter on every centre position, second and third call of one router object")
